@@ -7,6 +7,7 @@ package main
 
 import (
 	"fmt"
+	"go/token"
 	"strings"
 
 	"golang.org/x/tools/go/ssa"
@@ -15,12 +16,13 @@ import (
 func init() {
 	register(&propDef{
 		id:      "C12",
-		explain: "Structural necessary conditions of 'the concurrency, open-connection and per-IP counters are exact and the limits are enforced', decided per function on every path by exploration with counters in the abstract state (deferred calls applied at function exit): tryAcquireConcurrency nets +1 exactly when it returns true; ServeConn nets 0 on concurrency and open at every return; serveConnCounted nets 0 on concurrency and -1 on open (it gives back the unit its caller took) at every return; Serve gives back the open unit on the rejection branch of workerPool.Serve and keeps its own listener unit balanced; wrapPerIPConn registers exactly one unit when it returns a per-IP wrapper and none otherwise; perIPConn.Close / perIPTLSConn.Close unregister exactly once on every path on which they took the connection out of the wrapper, and never otherwise. Admission: the success return of tryAcquireConcurrency and the wrapper return of wrapPerIPConn are control-dependent on the comparison with the limit; the rejection paths write 503 / 429 and close the connection. Not decided: peak concurrent service under schedules, IPv6 (not counted by design).",
+		explain: "Structural necessary conditions of 'the concurrency, open-connection and per-IP counters are exact and the limits are enforced', decided per function on every path by exploration with counters in the abstract state (deferred calls applied at function exit): tryAcquireConcurrency nets +1 exactly when it returns true; ServeConn nets 0 on concurrency and open at every return; serveConnCounted nets 0 on concurrency and -1 on open (it gives back the unit its caller took) at every return; Serve gives back the open unit on the rejection branch of workerPool.Serve and keeps its own listener unit balanced; wrapPerIPConn registers exactly one unit when it returns a per-IP wrapper and none otherwise; perIPConn.Close / perIPTLSConn.Close unregister exactly once on every path on which they took the connection out of the wrapper, and never otherwise. Admission: the success return of tryAcquireConcurrency and the wrapper return of wrapPerIPConn are control-dependent on the comparison with the limit; the rejection paths write 503 / 429 and close the connection; Serve raises and lowers the count of listening Serve calls together with the open unit it holds, and GetOpenConnectionsCount corrects the open count by that counter, not by a constant. Not decided: peak concurrent service under schedules, IPv6 (not counted by design).",
 		run:     runC12,
 	})
 }
 
 func runC12(p *Prog, r *Report) {
+	openCountReportRule(p, r)
 	F := func(spec string) *ssa.Function {
 		f := p.Func(spec)
 		if f == nil {
@@ -50,7 +52,7 @@ func runC12(p *Prog, r *Report) {
 		tOpen = 1
 		tIP   = 2
 	)
-	names := [4]string{"Server.concurrency", "Server.open", "per-IP registration", ""}
+	names := [4]string{"Server.concurrency", "Server.open", "per-IP registration", "Server.serving (listening Serve calls)"}
 	// effect of primitive counter operations and of the callees whose contract is checked below
 	base := func(x *Explorer, st *State, c ssa.CallInstruction) (pairDelta, bool) {
 		var d pairDelta
@@ -60,6 +62,10 @@ func runC12(p *Prog, r *Report) {
 		}
 		if k, ok := atomicAddDelta(c, "open"); ok {
 			d[tOpen] = k
+			return d, true
+		}
+		if k, ok := atomicAddDelta(c, "serving"); ok {
+			d[3] = k // the count of listening Serve calls, which GetOpenConnectionsCount subtracts
 			return d, true
 		}
 		switch {
@@ -189,7 +195,7 @@ func runC12(p *Prog, r *Report) {
 					}
 				},
 				expect: func(x *Explorer, st *State, ret *ssa.Return) (pairDelta, [4]bool, bool) {
-					return pairDelta{0, 0, 0, 0}, [4]bool{false, true, false, false}, true
+					return pairDelta{0, 0, 0, 0}, [4]bool{false, true, false, true}, true
 				}}
 			sp.instr = func(x *Explorer, st *State, in ssa.Instruction) {}
 			sp.rule, sp.tokens, sp.effect, sp.min, sp.max = "E1", names, base, -1, 3
@@ -202,7 +208,7 @@ func runC12(p *Prog, r *Report) {
 					}
 					// every arrival at the loop header holds exactly the listener unit
 					nback++
-					if st.N[tOpen] != 1 {
+					if st.N[tOpen] != 1 || st.N[3] != 1 {
 						badBack++
 						if wit == nil {
 							wit = x.Path(st)
@@ -375,4 +381,54 @@ func stripMakeIface(v ssa.Value) ssa.Value {
 		}
 	}
 	return v
+}
+
+// openCountReportRule (C12.R-report): Serve holds one unit of Server.open per listening call. What
+// GetOpenConnectionsCount takes off for that has to be the number of listening calls - a counter that Serve raises
+// and lowers together with its unit (paired in E1) - not a constant: a constant is wrong as soon as the Server is
+// used with no Serve call (ServeConn only) or with more than one.
+func openCountReportRule(p *Prog, r *Report) {
+	fn := p.Func("(*Server).GetOpenConnectionsCount")
+	if fn == nil {
+		r.Undecided("R-report", "(*Server).GetOpenConnectionsCount", "not found")
+		return
+	}
+	n, bad := 0, false
+	pos := p.Pos(fn.Pos())
+	for _, b := range fn.Blocks {
+		rt, ok := b.Instrs[len(b.Instrs)-1].(*ssa.Return)
+		if !ok {
+			continue
+		}
+		for _, rv := range returnResults(rt) {
+			n++
+			seen := map[ssa.Value]bool{}
+			var walk func(v ssa.Value, d int)
+			walk = func(v ssa.Value, d int) {
+				if v == nil || seen[v] || d > 6 {
+					return
+				}
+				seen[v] = true
+				switch w := v.(type) {
+				case *ssa.BinOp:
+					for _, o := range []ssa.Value{w.X, w.Y} {
+						if k, isK := constInt(o); isK && k != 0 && (w.Op == token.SUB || w.Op == token.ADD) {
+							bad = true
+							pos = p.Pos(w.Pos())
+						}
+						walk(o, d+1)
+					}
+				case *ssa.Phi:
+					for _, e := range w.Edges {
+						walk(e, d+1)
+					}
+				case *ssa.Convert:
+					walk(w.X, d+1)
+				}
+			}
+			walk(rv, 0)
+		}
+	}
+	r.Check("R-report", "GetOpenConnectionsCount corrects the open count by a counter of listening Serve calls, not by a constant", !bad && n > 0, pos,
+		"the reported count is the internal counter plus or minus a constant: it assumes exactly one listening Serve call, so a server used through ServeConn alone reports -1 at rest and one with two listeners reports 1")
 }
